@@ -767,10 +767,13 @@ impl OutstationSession {
                 self.on_link_activity();
                 return Ok(UnsolicitedWaitResult::ReadNext);
             }
-            Some(TransportRequest::Error(from, err)) => {
+            Some(TransportRequest::Error(info, err)) => {
                 self.state.deferred_read.clear();
-                self.write_error_response(io, from, writer, err, database)
-                    .await?;
+                // a broadcast is never answered, not even a malformed one
+                if info.broadcast.is_none() {
+                    self.write_error_response(io, info.addr, writer, err, database)
+                        .await?;
+                }
                 return Ok(UnsolicitedWaitResult::ReadNext);
             }
         };
@@ -1039,10 +1042,13 @@ impl OutstationSession {
             Some(TransportRequest::LinkLayerMessage) => {
                 self.on_link_activity();
             }
-            Some(TransportRequest::Error(from, err)) => {
+            Some(TransportRequest::Error(info, err)) => {
                 self.on_link_activity();
-                self.write_error_response(io, from, writer, err, database)
-                    .await?;
+                // a broadcast is never answered, not even a malformed one
+                if info.broadcast.is_none() {
+                    self.write_error_response(io, info.addr, writer, err, database)
+                        .await?;
+                }
             }
             None => (),
         }
@@ -1086,8 +1092,7 @@ impl OutstationSession {
             FragmentType::RepeatNonRead(hash, last_response) => {
                 // If this is a retransmission of the pending SELECT, keep the pair adjacent
                 if request.header.function == FunctionCode::Select {
-                    if let (Some(select), Ok(objects)) = (&mut self.state.select, request.objects)
-                    {
+                    if let (Some(select), Ok(objects)) = (&mut self.state.select, request.objects) {
                         select.update_frame_id_on_repeat(seq, objects.hash(), info.id);
                     }
                 }
